@@ -307,16 +307,16 @@ class WaitInitiatorCEA(State):
     def run(self) -> None:
         self.set_wait_initiator_cea_state(set_name=True)
 
-        if self.has_recv_queue_message():
+        if self.is_set_release_signal_from_peer():
+            self.event_initiator_peer_disc()
+
+        elif self.has_recv_queue_message():
             self.msg = self.get_message()
 
             self.make_default_logging()
 
             if has_recv_cea(self.msg):
                 self.event_open_rcv_cea()            
-
-            elif has_recv_cer(self.msg):
-                self.event_responder_conn_cer()
 
             else:
                 self.event_initiator_rcv_non_cea()
